@@ -104,6 +104,24 @@ func constBytesContent(val ssa.Value, strict bool) (string, bool) {
 			return constStringVal(k.Value)
 		}
 	case *ssa.Call:
+		// a helper that returns the constant conversion (`func createKeyPrefix() []byte { return []byte(a + b) }`)
+		if sc := x.Call.StaticCallee(); sc != nil && len(sc.Blocks) > 0 && sc.Pkg != nil && strings.HasPrefix(sc.Pkg.Pkg.Path(), modPath) && constPrefixDepth < 6 {
+			constPrefixDepth++
+			defer func() { constPrefixDepth-- }()
+			res, n := "", 0
+			for _, r := range returnsOf(sc) {
+				if len(r.Results) != 1 {
+					return "", false
+				}
+				s, ok := constBytesContent(r.Results[0], strict)
+				if !ok || (n > 0 && s != res) {
+					return "", false
+				}
+				res = s
+				n++
+			}
+			return res, n > 0
+		}
 		if strict {
 			return "", false
 		}
@@ -335,10 +353,10 @@ func entryOrigin(e *Env, v ssa.Value, depth int) string {
 		}
 	case *ssa.Extract:
 		if call, ok := x.Tuple.(*ssa.Call); ok && strings.HasSuffix(x.Type().String(), "esdt.ESDigitalToken") {
-			return entryOriginCall(e, call)
+			return entryOriginCall(e, call, x.Index, depth)
 		}
 	case *ssa.Call:
-		return entryOriginCall(e, x)
+		return entryOriginCall(e, x, 0, depth)
 	case *ssa.Phi:
 		first := ""
 		for _, ed := range x.Edges {
@@ -354,7 +372,7 @@ func entryOrigin(e *Env, v ssa.Value, depth int) string {
 	return "?"
 }
 
-func entryOriginCall(e *Env, call *ssa.Call) string {
+func entryOriginCall(e *Env, call *ssa.Call, idx, depth int) string {
 	sc := call.Call.StaticCallee()
 	if sc == nil || sc.Pkg == nil || !strings.HasPrefix(sc.Pkg.Pkg.Path(), modPath) {
 		return "?"
@@ -362,6 +380,28 @@ func entryOriginCall(e *Env, call *ssa.Call) string {
 	for _, a := range call.Call.Args {
 		if strings.HasSuffix(a.Type().String(), modPath+".UserAccountHandler") {
 			return "read:" + e.Term(a)
+		}
+	}
+	// a helper without an account (it decodes a payload, or builds a literal): what its non-nil results are
+	if len(sc.Blocks) > 0 && e.depth < maxDepth {
+		sub := e.Sub(call, sc)
+		first := ""
+		for _, r := range returnsOf(sc) {
+			if idx >= len(r.Results) {
+				return "?"
+			}
+			if k, isK := r.Results[idx].(*ssa.Const); isK && k.Value == nil {
+				continue
+			}
+			o := entryOrigin(sub, retval(r, idx), depth+1)
+			if first == "" {
+				first = o
+			} else if o != first {
+				return "?"
+			}
+		}
+		if first != "" {
+			return first
 		}
 	}
 	return "?"
